@@ -76,3 +76,57 @@ Example C04_tie_float_example :
   lex_min_ratio_test exF 0 2 (0x1p-20)%float (0x1p-40)%float = (true, 2%nat) /\
   inf_like infinity (0x1p-40)%float (ndiv (get exF 0 5) (get exF 0 0)).
 Proof. vm_compute. repeat split. Qed.
+
+(* ---------------------------------------------------------------------------------------------
+   linprog_simplex.py: _pivot_col and solve_tableau as regenerated from the current source = C04/Model.v
+   (proofs in C04/TieGen.v).  enc found pc = pc if found else -1 (the code's "not found" value).
+   solve_tableau: for every tableau with 2 <= nrows <= ncols, every basis array of length nrows - 1, every
+   max_iter, along the model's own pivot path (traj_ok: at each visited tableau the parameter inf_ acts as
+   +infinity on the ratios of the lexicographic test; decidable, checker traj_okb): same status, num_iter,
+   final tableau and basis, and no access outside an array (tableau, basis, argmins).
+   --------------------------------------------------------------------------------------------- *)
+From QE Require Import C04.Model C04.TieGen.
+
+Theorem C04_tie_pivot_col :
+  forall (T : Type) (NT : Num T) (M : list (list T)) (nr nc : nat) (skip : bool) (fea tolp tolr : T),
+  rect nr nc M -> (0 < nr)%nat ->
+  let m := pivot_col M skip {| fea_tol := fea; tol_piv := tolp; tol_ratio_diff := tolr |} in
+  @gen_pivot_col T NT M skip fea tolp tolr = ((fst m, enc (fst m) (snd m)), true).
+Proof. exact (@gen_pivot_col_tie). Qed.
+Print Assumptions C04_tie_pivot_col.
+
+Theorem C04_tie_solve_tableau :
+  forall (T : Type) (NT : Num T) (inf_ fea tolp tolr : T) (skip : bool) (nr nc : nat), (2 <= nr <= nc)%nat ->
+  forall (M : list (list T)) (basis : list nat) (max_iter : nat),
+  rect nr nc M -> length basis = (nr - 1)%nat -> traj_ok inf_ fea tolp tolr skip nr nc max_iter M ->
+  @gen_solve_tableau T NT inf_ M (zs basis) (Z.of_nat max_iter) skip fea tolp tolr =
+    (let '(M', basis', success, status, ni) :=
+         solve_tableau M basis max_iter skip {| fea_tol := fea; tol_piv := tolp; tol_ratio_diff := tolr |} in
+     (((success, Z.of_nat status, Z.of_nat ni), M', zs basis'), true)).
+Proof. exact (@gen_solve_tableau_tie). Qed.
+Print Assumptions C04_tie_solve_tableau.
+
+Theorem C04_traj_okb_sound :
+  forall (T : Type) (NT : Num T) (inf_ fea tolp tolr : T) (skip : bool) (nr nc : nat), (2 <= nr <= nc)%nat ->
+  forall (f : nat) (M : list (list T)),
+  traj_okb inf_ fea tolp tolr skip nr nc f M = true -> traj_ok inf_ fea tolp tolr skip nr nc f M.
+Proof. exact (@traj_okb_sound). Qed.
+Print Assumptions C04_traj_okb_sound.
+
+(* non-vacuity: max x0 + x1 s.t. 2 x0 + x1 <= 4, x0 + 3 x1 <= 6 (phase-2 tableau with slack basis), exact Q
+   and binary64; three iterations (two pivots, then optimal) *)
+Definition lpQ : list (list Q) := [[2;1;1;0;4];[1;3;0;1;6];[1;1;0;0;0]]%Q.
+Example C04_tie_solve_tableau_example :
+  rect 3 5 lpQ /\ traj_ok (1000000%Q) 0%Q 0%Q 0%Q false 3 5 10 lpQ /\
+  gen_solve_tableau (1000000%Q) lpQ [2;3]%Z 10 false 0%Q 0%Q 0%Q =
+    (((true, 0%Z, 3%Z), [[1;0;3#5;-1#5;6#5];[0;1;-1#5;2#5;8#5];[0;0;-2#5;-1#5;-14#5]]%Q, [0;1]%Z), true).
+Proof.
+  split; [split; [reflexivity|intros [|[|[|i]]] Hi; try reflexivity; exfalso; inversion Hi as [|? H1]; inversion H1 as [|? H2]; inversion H2 as [|? H3]; inversion H3]|].
+  split; [apply traj_okb_sound; [split; repeat constructor|vm_compute; reflexivity]|vm_compute; reflexivity].
+Qed.
+Definition lpF : list (list float) := [[2;1;1;0;4];[1;3;0;1;6];[1;1;0;0;0]]%float.
+Example C04_tie_solve_tableau_float_example :
+  traj_okb infinity (0x1p-20)%float (0x1p-23)%float (0x1p-43)%float false 3 5 10 lpF = true /\
+  fst (fst (fst (gen_solve_tableau infinity lpF [2;3]%Z 10 false (0x1p-20)%float (0x1p-23)%float (0x1p-43)%float))) = (true, 0%Z, 3%Z) /\
+  snd (gen_solve_tableau infinity lpF [2;3]%Z 10 false (0x1p-20)%float (0x1p-23)%float (0x1p-43)%float) = true.
+Proof. vm_compute. repeat split. Qed.
